@@ -10,6 +10,7 @@ func init() {
 			"Not decided: correctness of the ancestor walk beyond its checked shape (bounded counter, compares with the node being linked, answers true when the bound is hit).",
 		Rules: []Rule{
 			{Name: "G13", Doc: "result-pointer provenance, growth discipline, id-map agreement", MinInstances: 8, Run: runRefRules},
+			{Name: "LOOPVAR", Doc: "no pointer to a per-loop (go 1.18) iteration variable is kept as a reference: it would point at a copy, and at the last element's", MinInstances: 0, Run: func(c *Ctx) { runLoopVarAlias(c, staticParseFns(c), "LOOPVAR") }},
 			{Name: "REQ", Doc: "required references non-nil at append", MinInstances: 1, Run: runRequiredRefs},
 			{Name: "FOREST", Doc: "parent links form a forest; Root terminates", MinInstances: 2, Run: runForest},
 		},
